@@ -904,7 +904,7 @@ func (rw *respWalker) inline(fr *rFrame, pt *rPath, c *ssa.Call, b *ssa.BasicBlo
 var respEntryBind map[ssa.Value]ssa.Value
 
 func runRespFlow(p *core.Program, handler *ssa.Function, psT *types.Named, modes map[string]bool) *respWalker {
-	rw := &respWalker{p: p, pkg: handler.Pkg, psT: psT, limit: 4000, modeOf: modes, resolved: map[*ssa.Call]*ssa.Function{}, resolvedCom: map[*ssa.Call]*ssa.CallCommon{}, globals: map[*ssa.Global]*robj{}}
+	rw := &respWalker{p: p, pkg: handler.Pkg, psT: psT, limit: 40000, modeOf: modes, resolved: map[*ssa.Call]*ssa.Function{}, resolvedCom: map[*ssa.Call]*ssa.CallCommon{}, globals: map[*ssa.Global]*robj{}}
 	fr := &rFrame{fn: handler, env: map[ssa.Value]rval{}}
 	for fv, bv := range respEntryBind {
 		switch x := bv.(type) {
